@@ -176,6 +176,18 @@ CHECKS["C08"] = dict(
     technique="Coq proof (character-level parser inverts the printer: induction over the nested attribute tree, regexp alternatives as total functions) + vm_compute correspondence incl. the placement algorithm + end-to-end client oracle",
     design="7/C08")
 
+CHECKS["C11"] = dict(
+    text="Machine-checked proof (Coq): for EVERY DMR document rendered from an abstract spec (groups nested to any depth, declarations "
+         "interleaved in any order, dimensions at any level, named / unnamed / mixed Dim references, attributes in the three value "
+         "syntaxes, Maps) whose fully qualified names are distinct and whose references resolve, the model of pydap.parsers.dmr returns "
+         "exactly the declared variables: fully qualified name, type, shape resolved in declaration order, fully qualified dimension "
+         "names, maps, group path, attributes. The model is compared with dmr_to_dataset on documents rendered by an independent "
+         "generator and on DMRs emitted by pydap's DMR response; the parsed datasets are compared with the specs directly.",
+    note=TB + "xml.etree.ElementTree is outside the model (the harness hands the model the element tree of the same text); attribute value "
+              "conversion and the placement inside DatasetType are covered by the oracle only; Structure/Sequence members not modelled.",
+    technique="Coq proof (two collection passes over a nested element tree proved equal to the spec-level listings under no-duplicate keys; string-level name resolution via split/join lemmas) + vm_compute correspondence on generated and served DMRs",
+    design="7/C11")
+
 NOT_YET = {
 }
 
